@@ -19,6 +19,7 @@ import sys
 from sim import core, canon, ops, histories
 from checks.common import PoolCheck, jcopy, short
 from pool.pool import schema_class
+from pool import families
 
 STEPS = ('use', 'use', 'build_again', 'clear_build', 'copy', 'pickle', 'maps_copy', 'failed_load_namespace')
 
@@ -31,12 +32,29 @@ import sys, json, pickle
 sys.path.insert(0, %r)
 data = sys.stdin.buffer.read()
 n = int.from_bytes(data[:8], 'big')
-schema = pickle.loads(data[8:8 + n])
-docs = pickle.loads(data[8 + n:])
 from sim import histories, ops, canon
-from pool import pool
+from pool import pool, families
 pool.install_pool_peer()          # the simulated peer behind the pool's remote location hints
-out = {'globals': histories.globals_signature(schema), 'probes': []}
+docs, rebuild = pickle.loads(data[8 + n:])
+out = {'probes': []}
+if rebuild:
+    # the restart proper: the FIRST schema this interpreter builds is the family's schema, from its source files
+    try:
+        fam = families.FAMILIES[rebuild['family']]
+        first = fam.assemble(rebuild['dir'], pool.schema_class(rebuild['version']))
+        out['rebuilt_globals'] = histories.globals_signature(first)
+        fblob = pickle.dumps(first)
+        out['rebuilt_probes'] = []
+        for d in docs:
+            for api in ('iter_errors', 'decode_lax'):
+                try:
+                    out['rebuilt_probes'].append(ops.call_api(pickle.loads(fblob), d, {'api': api}))
+                except Exception as exc:
+                    out['rebuilt_probes'].append(canon.canon_exc(exc))
+    except Exception as exc:
+        out['rebuilt_raise'] = canon.canon_exc(exc)
+schema = pickle.loads(data[8:8 + n])
+out['globals'] = histories.globals_signature(schema)
 blob = data[8:8 + n]
 for d in docs:
     for api in ('iter_errors', 'decode_lax'):
@@ -54,7 +72,7 @@ class C09(PoolCheck):
     LEVEL = 'exploration'
     GROUP = 1
     CASE_TIMEOUT = 180.0
-    FAMILIES = ('multi', 'multi2', 'chameleon', 'xsitype', 'keys', 'subst', 'fixed', 'ids', 'assert11', 'wild', 'ondemand', 'laxbuilt', 'grouped', 'simple')
+    FAMILIES = ('multi', 'multi2', 'chameleon', 'xsitype', 'keys', 'subst', 'fixed', 'ids', 'assert11', 'wild', 'ondemand', 'laxbuilt', 'grouped', 'simple', 'vcond')
     RULE = ("case = (family, assembly variant [canonical | list constructor with a permuted order of the extra "
             "sources | build=False + add_schema/import_schema/include_schema in a permuted order + build()], then a "
             "seeded sequence of lifecycle steps [use an operation of the C10 menu, build() again, maps.clear()+build(), "
@@ -281,7 +299,26 @@ class C09(PoolCheck):
                                'detail': {'case': case, 'obs': obs}})
         else:
             ref_globals = self.globals[case['entry']]
-            if obs['globals'] != ref_globals:
+            if 'rebuilt_raise' in obs or ('rebuilt_globals' in obs and obs['rebuilt_globals'] != ref_globals):
+                violations.append({'signature': dict(sigbase, clause='first-build-of-a-fresh-interpreter-differs',
+                                                     what='raise' if 'rebuilt_raise' in obs else 'globals'),
+                                   'detail': {'case': case, 'raise': obs.get('rebuilt_raise'),
+                                              'missing': short([g for g in ref_globals if g not in obs.get('rebuilt_globals', ref_globals)], 500),
+                                              'extra': short([g for g in obs.get('rebuilt_globals', []) if g not in ref_globals], 500)}})
+            elif 'rebuilt_probes' in obs:
+                k = 0
+                for di, d in enumerate(e.docs):
+                    for api in ('iter_errors', 'decode_lax'):
+                        ref = self.ref(case['entry'], di, {'api': api})
+                        if obs['rebuilt_probes'][k] != ref and not violations:
+                            violations.append({'signature': dict(sigbase, clause='first-build-of-a-fresh-interpreter-differs',
+                                                                 what='probe', api=api),
+                                               'detail': {'case': case, 'doc': d.name, 'got': short(obs['rebuilt_probes'][k], 600),
+                                                          'ref': short(ref, 600)}})
+                        k += 1
+            if violations:
+                pass
+            elif obs['globals'] != ref_globals:
                 missing = [g for g in ref_globals if g not in obs['globals']]
                 extra = [g for g in obs['globals'] if g not in ref_globals]
                 violations.append({'signature': dict(sigbase, clause='global-components-differ',
@@ -311,7 +348,10 @@ class C09(PoolCheck):
 
     def fresh_observe(self, schema, entry, hashseed):
         blob = pickle.dumps(schema)
-        docs = pickle.dumps([d.data for d in entry.docs])
+        rebuild = None
+        if entry.family.name in families.FAMILIES and not str(entry.main_path).startswith(('http:', 'file:')):
+            rebuild = {'family': entry.family.name, 'version': entry.version, 'dir': os.path.dirname(entry.main_path)}
+        docs = pickle.dumps(([d.data for d in entry.docs], rebuild))
         env = dict(os.environ, PYTHONHASHSEED=str(hashseed), PYTHONDONTWRITEBYTECODE='1')
         p = subprocess.run([sys.executable, '-c', FRESH_LOADER % core.VERIF_DIR],
                            input=len(blob).to_bytes(8, 'big') + blob + docs, capture_output=True, env=env, timeout=150)
